@@ -103,6 +103,10 @@ func NewCtx(prop, tier string) *Ctx {
 		c.infra = err
 	}
 	c.scratch = d
+	// programs under test write into the current directory (image.save -> grol.png, save() -> .gr): not into /verif
+	if wd := filepath.Join(d, "cwd"); os.MkdirAll(wd, 0o755) == nil {
+		_ = os.Chdir(wd)
+	}
 	return c
 }
 
